@@ -97,7 +97,11 @@ CLAIMED = {
              "cross-implementation oracle reports the first call on which Nibiru's and go-ethereum's real StateDBs answer differently.",
         note="The history theorem (C03_history_commits_match_reference_partial: any sequence of transactions) assumes that no account ends a "
              "transaction empty — where go-ethereum deletes and Nibiru persists an empty record; that case is covered for a single "
-             "transaction only and otherwise handled by the harness's rendering, not by a theorem. Transactions that "
+             "transaction only and otherwise handled by the harness's rendering, not by a theorem. Against go-ethereum run with "
+             "deleteEmptyObjects = false (Finalise's other mode: empty accounts are kept, which is what Nibiru's Commit does) the "
+             "condition disappears: C03_history_commits_match_keep_reference_partial (SDBKeep.lean) — any history, accounts that end "
+             "empty included, equal persisted states under CreateOK and whole-unibi balances alone; the equivalence of go-ethereum's "
+             "two Finalise modes for later transactions is not proved. Transactions that "
              "call a Nibiru precompile are outside every theorem here (C04/C08); there the equality is established by the correspondence "
              "runs only. Trusted: Lean kernel; the interpreter (same code on both sides); harness; GethSpec's fidelity to go-ethereum "
              "is itself validated by differential execution, not proved. Precompile calls are excluded here (C04/C08).",
